@@ -665,7 +665,13 @@ class APIConnection:
             klass = SocketAPIError
         else:
             klass = UnhandledAPIConnectionError
-        new_exc = klass(f"Error while {action} connection: {err_str}")
+        msg = f"Error while {action} connection: {err_str}"
+        if isinstance(self._fatal_exception, BadNameAPIError):
+            # BadNameAPIError cannot be built from a message alone,
+            # it carries the name that was received
+            new_exc = BadNameAPIError(msg, self._fatal_exception.received_name)
+        else:
+            new_exc = klass(msg)
         new_exc.__cause__ = cause or ex
         return new_exc
 
